@@ -148,11 +148,16 @@ def dop(oid: str, name: str, dct: str, *, compu: str = IDENTICAL, ptype: str = "
 
 
 def dtc_dop(oid: str, name: str, dct: str, dtcs: Sequence[Tuple[str, str, int, str]], *, compu: str = IDENTICAL,
-            ptype: str = "A_UINT32") -> str:
+            ptype: str = "A_UINT32", linked: Sequence[Tuple[str, Sequence[str]]] = ()) -> str:
     """dtcs: (id, short name, trouble code, text)"""
     d = "".join(tag("DTC", sn(s) + f"<TROUBLE-CODE>{tc}</TROUBLE-CODE><TEXT>{_e(txt)}</TEXT>", ID=i)
                 for (i, s, tc, txt) in dtcs)
     body = sn(name) + dct + tag("PHYSICAL-TYPE", "", **{"BASE-DATA-TYPE": ptype}) + compu + tag("DTCS", d)
+    if linked:
+        # (id of the linked DTC-DOP, short names of its DTCs that are not inherited)
+        body += tag("LINKED-DTC-DOPS", "".join(
+            tag("LINKED-DTC-DOP", (tag("NOT-INHERITED-DTC-SNREFS", "".join(snref("NOT-INHERITED-DTC-SNREF", n) for n in ni)) if ni else "") +
+                ref("DTC-DOP-REF", lid)) for (lid, ni) in linked))
     return tag("DTC-DOP", body, ID=oid)
 
 
